@@ -149,6 +149,13 @@ def shard(ctx, budget_s):
                 m = gen.mutate(rng, u)
                 corpus.append((name + "_mut", m, m))
         corpus += polyglots(rng)
+        # queries with many questions: the replies are 0.3 - 2 KB long and 4 bytes per answer longer over IPv4 than over
+        # IPv6, so every size limit a responder might apply (512, 1232, 1452, ...) separates some placement from another
+        for _ in range(2):
+            nq = rng.choice([8, 10, 12, 16, 24, 40, 73, 91])
+            qs = [dns.question([bytes(rng.choice(b"abcdefghijklmnopqrstuvwxyz") for _x in range(rng.randrange(1, 12))), b"example", b"com"][rng.randrange(3):]) for _q in range(nq)]
+            m = dns.header(rng.getrandbits(16), 0x0100, nq) + b"".join(qs)
+            corpus.append(("dns_many", m, m))
         corpus += rng.sample(gen.near_requests(rng), 8)
         for name, u, t in corpus:
             pls = placements(rng)
